@@ -288,7 +288,7 @@ impl Check for Timelock {
             };
             let exp = m.apply(s, cfg);
             if !matches!(s, Step::Advance { .. } | Step::SetTrap { .. }) {
-                st.hit(if got { "tx.ok" } else { "tx.refused" });
+                st.tx(kind, got);
                 if !got && w.storage_digest(&[&id, &tgt]) != before {
                     return Err(violation("fail.no_trace", kind, i, format!("state changed by refused {s:?}")));
                 }
